@@ -663,7 +663,15 @@ class ExprMixin:
             sl, fixed, dim, fdim = e1, self.ev(e0, st), obj.shape[1], obj.shape[0]
             mk = lambda k: (fixed, k)
         fixed = self.norm_index(fixed, fdim, node, st, 'fixed index')
+        if is_z3(fixed) and not z3.is_const(fixed) and not z3.is_int_value(fixed):
+            fc = fresh('slfix', IntS)        # named, so that the element term is a legal E-matching pattern
+            st.assume(fc == fixed)
+            fixed = fc
         start, n, step = self.np_slice_range(sl, dim, node, st)
+        if is_z3(start) and not z3.is_const(start) and not z3.is_int_value(start):
+            sc_ = fresh('slstart', IntS)
+            st.assume(sc_ == start)
+            start = sc_
         arr = obj.arr
         items = obj.items
 
@@ -675,7 +683,14 @@ class ExprMixin:
             if items is not None:
                 raise Unsupported('symbolic read of concrete 2-D array')
             return sel2(arr, zint(i), zint(j))
-        return Seq(get, n, obj.kind)
+        pos = None
+        if items is None:
+            def at(p):
+                i, j = mk(p)
+                return sel2(arr, zint(i), zint(j))
+            s0, n0 = zint(start), zint(n)
+            pos = (at, s0, s0 + n0, s0, 1) if step == 1 else (at, s0 - n0 + 1, s0 + 1, s0, -1)
+        return Seq(get, n, obj.kind, pos=pos)
 
     def np_slice_range(self, sl, dim, node, st):
         """start, count, step of a Python slice on an axis of length dim; step in {1,-1}."""
